@@ -1,6 +1,6 @@
 import Driver.C14
 namespace SV.Drv.C29
-open SV SV.Drv SV.Yaml
+open SV SV.Drv SV.YamlRef
 
 def exec (a : List String) : String :=
   match a with
